@@ -1038,7 +1038,10 @@ class _Gen:
 
     # -- draws ---------------------------------------------------------------
     def pick(self, seq):
-        return self.draw(st.sampled_from(list(seq)))
+        # an index draw, not sampled_from: the elements may be closures, whose repr (an address) would otherwise enter
+        # Hypothesis' bookkeeping and make the search depend on the memory layout
+        seq = list(seq)
+        return seq[self.draw(st.integers(0, len(seq) - 1))]
 
     def wpick(self, pairs):
         items = []
